@@ -116,6 +116,21 @@ func (g *Gen) libModel(f *ssa.Function, c *ssa.CallCommon, st *State) ([]Val, bo
 		return one(Val{T: fmt.Sprintf("(and (fp.isInfinite %[1]s) (or (= %[2]s 0) (and (> %[2]s 0) (fp.isPositive %[1]s)) (and (< %[2]s 0) (fp.isNegative %[1]s))))", v.T, s), S: sBool, G: rt()})
 	case "math.Abs":
 		return one(Val{T: fmt.Sprintf("(fp.abs %s)", g.argVal(c, 0, st).T), S: sF64, G: rt()})
+	// ---------------- protobuf scalar boxes: proto.Uint64(v) etc. return a pointer to a fresh cell holding v
+	case "github.com/gogo/protobuf/proto.Uint64", "github.com/gogo/protobuf/proto.Int64", "github.com/gogo/protobuf/proto.Uint32", "github.com/gogo/protobuf/proto.Int32",
+		"github.com/gogo/protobuf/proto.Bool", "github.com/gogo/protobuf/proto.String", "github.com/gogo/protobuf/proto.Float64", "github.com/gogo/protobuf/proto.Int",
+		"github.com/golang/protobuf/proto.Uint64", "github.com/golang/protobuf/proto.Int64", "github.com/golang/protobuf/proto.Uint32", "github.com/golang/protobuf/proto.Int32",
+		"github.com/golang/protobuf/proto.Bool", "github.com/golang/protobuf/proto.String", "github.com/golang/protobuf/proto.Float64",
+		"google.golang.org/protobuf/proto.Uint64", "google.golang.org/protobuf/proto.Int64", "google.golang.org/protobuf/proto.Uint32", "google.golang.org/protobuf/proto.Int32",
+		"google.golang.org/protobuf/proto.Bool", "google.golang.org/protobuf/proto.String", "google.golang.org/protobuf/proto.Float64":
+		g.W.usedLib[name] = true
+		v := g.argVal(c, 0, st)
+		et := rt().Underlying().(*types.Pointer).Elem()
+		v = g.convert(v, c.Args[0].Type(), et, st)
+		id := g.newObj(st)
+		p := Val{T: fmt.Sprintf("(pobj %s)", id), S: sPtr, G: rt()}
+		g.storePtr(p, et, nil, v, st)
+		return []Val{p}, true
 	// ---------------- errors: a freshly made error is non-nil
 	case "github.com/pkg/errors.Wrap", "github.com/pkg/errors.Wrapf", "github.com/pkg/errors.WithStack", "github.com/pkg/errors.WithMessage", "github.com/pkg/errors.WithMessagef", "github.com/cockroachdb/errors.Wrap", "github.com/cockroachdb/errors.Wrapf", "github.com/cockroachdb/errors.WithStack":
 		// wrapping keeps nil-ness: Wrap(nil, ...) == nil
